@@ -4,7 +4,7 @@ import TakVerif.Proofs.C06Search
 namespace C06
 open Tak Tak.PN Spec.Game
 
-variable {S M : Type} (G : Game S M) (att : Color)
+variable {S M : Type} (G : Game S M) (att : Color) {pos : S}
 
 /-- the standing assumptions about the game -/
 structure GameOK : Prop where
@@ -12,7 +12,17 @@ structure GameOK : Prop where
   att : att = .white ∨ att = .black
   small : SmallBranching G
 
-theorem initState_ok [Inhabited M] (hg : GameOK G att) (cfg : PN.Cfg) (pos : S) (st0 : St S M)
+/-- the standing assumptions about the game, as far as a search from `root` can see: the bound on the
+number of moves is asked only of positions reachable from `root` -/
+structure GameOKFrom (root : S) : Prop where
+  alt : Alternating G
+  att : att = .white ∨ att = .black
+  small : SmallFrom G root
+
+theorem GameOK.from_root {G : Game S M} {att : Color} (hg : GameOK G att) (root : S) : GameOKFrom G att root :=
+  ⟨hg.alt, hg.att, SmallBranching.smallFrom hg.small root⟩
+
+theorem initState_ok [Inhabited M] (hg : GameOKFrom G att pos) (cfg : PN.Cfg) (st0 : St S M)
     (hroot : G.toMove pos = att) (h : initState G att cfg pos = some st0) :
     ZipOK G att pos st0 ∧ st0.anomaly = false ∧ st0.up = [] ∧ st0.stack = [pos] := by
   unfold initState at h
@@ -34,7 +44,7 @@ theorem initState_ok [Inhabited M] (hg : GameOK G att) (cfg : PN.Cfg) (pos : S) 
       have hia : st1.focus.isAnd = false := by rw [hf]
       rw [TreeOK_iff, setNumbers_children, setNumbers_expanded, hc, hx]
       refine ⟨?_, by simp, by simp, by simp⟩
-      apply setNumbers_leaf_ok G att hg.small hx
+      apply setNumbers_leaf_ok G att (hg.small pos .refl) hx
       · intro hv; rw [hval] at hv; exact .terminal (hvp hv)
       · intro hd hv
         rw [hval] at hv
@@ -48,7 +58,7 @@ theorem initState_ok [Inhabited M] (hg : GameOK G att) (cfg : PN.Cfg) (pos : S) 
       rw [hup]; exact ⟨rfl, rfl⟩
 
 /-- the state `Prove` reads its result from is sound (unless the ghost flag was raised) -/
-theorem proveState_ok [Inhabited M] (hg : GameOK G att) (fuel : Nat) (cfg : PN.Cfg) (pos : S) (st : St S M)
+theorem proveState_ok_from [Inhabited M] (hg : GameOKFrom G att pos) (fuel : Nat) (cfg : PN.Cfg) (st : St S M)
     (hroot : G.toMove pos = att) (h : proveState G att fuel cfg pos = .ok st) (han : st.anomaly = false) :
     ∃ hs, st.stack = pos :: hs ∧ st.up = [] ∧ TreeOK G att st.depthLimited [] pos st.focus := by
   unfold proveState at h
@@ -56,7 +66,7 @@ theorem proveState_ok [Inhabited M] (hg : GameOK G att) (fuel : Nat) (cfg : PN.C
   split at h
   · exact absurd h (by simp)
   · rename_i st0 hinit
-    obtain ⟨hz0, _, hup0, hstk0⟩ := initState_ok G att hg _ pos st0 hroot hinit
+    obtain ⟨hz0, _, hup0, hstk0⟩ := initState_ok G att hg _ st0 hroot hinit
     obtain ⟨⟨_, hzz⟩, hlen⟩ := (search_all G att pos hg.alt hg.att hg.small fuel).1 0 _ st0 st h
     have hz := hzz hz0 han
     have hup : st.up = [] := List.eq_nil_of_length_eq_zero (hlen hz0 han)
@@ -66,5 +76,10 @@ theorem proveState_ok [Inhabited M] (hg : GameOK G att) (fuel : Nat) (cfg : PN.C
     obtain ⟨h1, h2⟩ := hc
     subst h1; subst h2
     exact ⟨[], hst, hup, ht⟩
+
+theorem proveState_ok [Inhabited M] (hg : GameOK G att) (fuel : Nat) (cfg : PN.Cfg) (pos : S) (st : St S M)
+    (hroot : G.toMove pos = att) (h : proveState G att fuel cfg pos = .ok st) (han : st.anomaly = false) :
+    ∃ hs, st.stack = pos :: hs ∧ st.up = [] ∧ TreeOK G att st.depthLimited [] pos st.focus :=
+  proveState_ok_from G att (hg.from_root pos) fuel cfg st hroot h han
 
 end C06
